@@ -273,8 +273,8 @@ func (d *Data) handleProximity(ctx *datastore.VersionedCtx, w http.ResponseWrite
 		defer server.ThrottledOpDone()
 	}
 
-	if len(parts) < 5 {
-		server.BadRequest(w, r, "ERROR: DVID requires labels to follow 'proximity' command")
+	if len(parts) < 6 {
+		server.BadRequest(w, r, "ERROR: DVID requires two labels to follow 'proximity' command")
 		return
 	}
 	label1, err := strconv.ParseUint(parts[4], 10, 64)
